@@ -43,6 +43,9 @@ type Prop struct {
 	// RaceCompanion names the race-mode property a normal check also runs.
 	RaceMode      bool
 	RaceCompanion string
+	// RaceStackPkg (race mode): count a report if both access stacks pass through
+	// this package below pkg/ (default: both innermost frames are Inbucket code).
+	RaceStackPkg string
 	// Companions are further properties (same binary) that the check of this
 	// property also runs: other harnesses for clauses of the same statement.
 	Companions []string
